@@ -24,7 +24,7 @@ from props import _reduce_util as U
 PROP = "C22"
 READY = True
 DRIVER = "dm_reduce"
-LEAN_MODULES = ["DaskModel.Props.C22", "DaskModel.Lemmas.ArrayReduce", "DaskModel.Lemmas.BlockScan"]
+LEAN_MODULES = ["DaskModel.Props.C22", "DaskModel.Lemmas.ArrayReduce", "DaskModel.Lemmas.BlockScan", "DaskModel.Lemmas.TopK"]
 CASE_TIMEOUT_S = 20
 LEVEL_TEXT = (
     "Proved in Lean 4 (no size bound): K1 treeReduce_eq_fold — for every block list, every group size k "
@@ -33,12 +33,13 @@ LEVEL_TEXT = (
     "concatenation; hence split_every_irrelevant. Instances proved equal to the NumPy specification for every "
     "blocking: sum, prod, any, all, mean as (total,n), min/max with dask's empty-chunk rule (min_eq_numpy, "
     "max_eq_numpy), argmin/argmax returning the FIRST flat index of the extremum (argmin_eq_numpy, argmax_eq_numpy: "
-    "1-d / raveled order, non-empty blocks). K2: sequential cumreduction equals the global scan for every chunking "
+    "1-d / raveled order, non-empty blocks), top-k (topk_eq_sort_take: the k largest / -k smallest of the whole "
+    "array). K2: sequential cumreduction equals the global scan for every chunking "
     "including zero-length blocks (seqScan_eq_scan); Blelloch: any schedule accepted by the proved interval checker "
     "yields every block prefix (blelloch_sound, blelloch_eq_scan, any monoid, any n), and dask's schedule is accepted "
     "for every n_vals ≤ 32 by kernel evaluation (schedOk_le_32) — larger n is validated (all n ≤ 300 in the thorough "
     "tier): that part is partial. Validated, not proved: float summation order (tolerance), var/std/moment (Chan "
-    "merge), nan-variants, top-k (model diffed), median/quantile glue, multi-axis value-level equality (the n-d plan "
+    "merge), nan-variants, argtopk (indices checked against the values), median/quantile glue, multi-axis value-level equality (the n-d plan "
     "is diffed against the real graph and executed by the driver on integer data)."
 )
 LEVEL_NOTE = (
@@ -728,6 +729,35 @@ def _exhaustive_small(ctx):
                                  "axis": 0, "keepdims": False, "split_every": se}
 
 
+def _exhaustive_nd(ctx):
+    """thorough tier: ALL chunkings (every composition of every axis) of shapes (4,3) and (3,2,2), and a
+    sample of them in the quick tier."""
+    rng = ctx.rng
+    for shape in [(4, 3), (3, 2, 2)]:
+        per_axis = [U.compositions(n) for n in shape]
+        allc = list(itertools.product(*per_axis))
+        if not ctx.thorough():
+            allc = rng.sample(allc, 6)
+        a = U.rand_int_array(rng, shape, -2, 2)
+        f = U.rand_float_array(rng, shape, nan_p=0.15)
+        for ch in allc:
+            chunks = [list(c) for c in ch]
+            axis = rng.choice(_axis_choices(len(shape)))
+            se = rng.choice([None, 2, 3, {str(ax): 2 for ax in norm_axes(axis, len(shape))}])
+            yield "reduce", {"a": enc_arr(a), "chunks": chunks, "op": rng.choice(["sum", "min", "max", "mean", "prod", "any", "all"]),
+                             "axis": axis, "keepdims": rng.random() < 0.3, "split_every": se}
+            yield "reduce", {"a": enc_arr(f), "chunks": chunks, "op": rng.choice(NANOPS + ["var", "std", "mean"]),
+                             "axis": axis, "keepdims": rng.random() < 0.3, "split_every": se}
+            yield "arg", {"a": enc_arr(U.rand_int_array(rng, shape, 0, 1)), "chunks": chunks, "op": rng.choice(["argmin", "argmax"]),
+                          "axis": rng.choice([None] + list(range(len(shape)))), "keepdims": False, "split_every": rng.choice([None, 2])}
+            ax = rng.randrange(len(shape))
+            yield "cum", {"a": enc_arr(a), "chunks": chunks, "op": rng.choice(["cumsum", "cumprod"]), "axis": ax,
+                          "method": rng.choice(["sequential", "blelloch"])}
+            k = rng.randint(1, shape[ax]) * rng.choice([1, -1])
+            yield "topk", {"a": enc_arr(a), "chunks": chunks, "k": k, "axis": ax, "split_every": rng.choice([None, 2]),
+                           "arg": rng.random() < 0.5}
+
+
 def generate(ctx):
     # function level
     for n in range(1, ctx.n(40, 300) + 1):
@@ -740,7 +770,8 @@ def generate(ctx):
     yield from gen_plan(ctx, ctx.n(200, 2500))
     # API level
     yield from _exhaustive_small(ctx)
-    yield from gen_reduce(ctx, ctx.n(300, 5000))
+    yield from _exhaustive_nd(ctx)
+    yield from gen_reduce(ctx, ctx.n(280, 5000))
     yield from gen_arg(ctx, ctx.n(110, 1500))
     yield from gen_cum(ctx, ctx.n(110, 1500))
     yield from gen_topk(ctx, ctx.n(90, 1200))
